@@ -242,7 +242,7 @@ def main(run, tier):
               'external calls either raise or return (no other effect on the streams than recorded by the ghost state)')
     run.assume('the content part (output = printer text + link; link designates the map of the lower-level API) is bounded only: '
                'sourcemap.write_sourcemap has no deductive contract; verify_write_sourcemap_args is under contract for which path is '
-               'made relative to which, utils.normrelpath (os.path string functions) is bounded only', 'io.write with a list of nodes: bounded only (E1 covers a single Node)')
+               'made relative to which, utils.normrelpath (os.path string functions) is bounded only', 'io.write with a list of nodes: lists of <= 3 entries (Node / not a Node patterns) under contract: the chunks of every Node entry, in order, chained and written')
 
 
 def replay(data):
